@@ -214,6 +214,24 @@ theorem C18_period_predicates_general (p q : Period)
   · simp only [periodsConnected, Bool.and_eq_true, decide_eq_true_eq]
     rw [lower_le_upper p q hp.1 hq.2, lower_le_upper q p hq.1 hp.2]
 
+/-- The same criterion with NO hypothesis at all, stated through the code's own timestamp order: for every
+pair of periods — any int64/int32 field values, nanos outside `[0, 10^9)` and degenerate periods included —
+`Intersect` holds iff each start is before the other period's end by `CompareAscending` (absent bounds are
+infinitely far), `Connected` iff it is not after it.  (`C18_compare_sign`/`C18_total_order`: that order is a
+total order on all field values; `C18_compare_chronological`: the chronological one on valid timestamps.) -/
+theorem C18_period_predicates_fieldwise (p q : Period) :
+    (periodsIntersect (some p) (some q) = true ↔ optCmpLt p.start q.stop ∧ optCmpLt q.start p.stop) ∧
+    (periodsConnected (some p) (some q) = true ↔ optCmpLe p.start q.stop ∧ optCmpLe q.start p.stop) := by
+  obtain ⟨ps, pe⟩ := p
+  obtain ⟨qs, qe⟩ := q
+  have h1 := lower_upper_fieldwise ps qe pe qs
+  have h2 := lower_upper_fieldwise qs pe qe ps
+  constructor
+  · simp only [periodsIntersect, Bool.and_eq_true, decide_eq_true_eq]
+    rw [h1.1, h2.1]
+  · simp only [periodsConnected, Bool.and_eq_true, decide_eq_true_eq]
+    rw [h1.2, h2.2]
+
 /-- `PeriodBefore(a)` and `PeriodOnOrAfter(b)` intersect exactly when `b` is before `a`, and are connected
 exactly when `b` is not after `a` — the period predicates agree with `CompareAscending`. -/
 theorem C18_before_after (a b : Ts) (ha : a.Normal) (hb : b.Normal) :
@@ -251,5 +269,12 @@ example : (Cut.belowAll).compareTo (.below ⟨-5, 0⟩) = -1 ∧ (Cut.below ⟨3
     (Cut.aboveAll).compareTo .aboveAll = 0 := by decide
 example : (Cut.below ⟨3, 7⟩).Normal ∧ (Cut.above ⟨3, 999999999⟩).Normal := by
   simp [Cut.Normal, Ts.Normal]
+
+/-- On timestamps that are not valid (`nanos` outside `[0, 10^9)`) the predicates follow the field-wise order of
+`C18_period_predicates_fieldwise`, not the instants: `[0s + 2·10^9 ns, ∞)` and `(−∞, 1s)` "intersect" because
+`(0, 2·10^9)` is before `(1, 0)` field by field, although the first instant is 2s. -/
+example : periodsIntersect (some ⟨some ⟨0, 2000000000⟩, none⟩) (some ⟨none, some ⟨1, 0⟩⟩) = true ∧
+    optCmpLt (some ⟨0, 2000000000⟩) (some ⟨1, 0⟩) ∧ ¬ (⟨0, 2000000000⟩ : Ts).Normal := by
+  refine ⟨by decide, by simp only [optCmpLt]; decide, by simp [Ts.Normal]⟩
 
 end ScVerif.C18
